@@ -4,12 +4,14 @@ from ..core.report import CheckContext
 from ..core.resolve import Resolver
 from ..rules import inval, scale
 from ..rules import inval as _inval_rl
+from ..rules import tables as _tables_be
 from .common import run_control, generic_rules, anchor_funcs
 
 
 def analyse(ctx: CheckContext, p: Program):
     r = Resolver(p)
     ctx.guard(generic_rules, ctx, p, r, "C05")
+    ctx.guard(_tables_be.check_block_ends, ctx, p, r)
     ctx.guard(_inval_rl.check_round_last, ctx, p, r, anchor_funcs(p, "C05"))
     ctx.guard(scale.check_scale, ctx, p, r)
     ctx.guard(scale.check_graph_roles, ctx, p, r)
